@@ -39,10 +39,11 @@ def load_bytes(IndxIO, data, path):
         return IndxIO.load(f)
 
 
-def file_event(IndxIO, tid, arity, common, ents, wd, index=None, cuts=True, unique=False, presave=None):
+def file_event(IndxIO, tid, arity, common, ents, wd, index=None, cuts=True, unique=False, presave=None, rowdtype=None):
     """save(ents) -> bytes; load(bytes); load(bytes[:k]) for every k."""
     import numpy as np
     path = os.path.join(wd, ("u%d.indx" % tid) if unique else ("f%d.indx" % (tid % 64)))
+    rdt = np.dtype(rowdtype or np.uint32)       # the writer takes the row-id word size from its dtype argument
     entries = {}
     np_keys = tid % 5 == 2       # coordinate tuples made of NumPy scalars of the narrowest type (tuple(row) of a typed table)
 
@@ -53,23 +54,23 @@ def file_event(IndxIO, tid, arity, common, ents, wd, index=None, cuts=True, uniq
     for j, (c, r) in enumerate(ents):
         if (tid + j) % 3 == 0 and len(r):
             # a non-contiguous row-id array: every second element of a padded buffer (a column of a 2-D table)
-            base = np.full(2 * len(r), 0xDEADBEEF, dtype=np.uint32)
+            base = np.full(2 * len(r), 0xEF, dtype=rdt)
             base[0::2] = r
             entries[key(c)] = base[0::2]
         elif (tid + j) % 3 == 1 and len(r):
-            ro = np.array(r, dtype=np.uint32)
+            ro = np.array(r, dtype=rdt)
             ro.setflags(write=False)                       # a read-only array (e.g. memory-mapped)
             entries[key(c)] = ro
         else:
-            entries[key(c)] = np.array(r, dtype=np.uint32)
-    ev = {"tid": tid, "kind": "file", "x": xjson(arity, common, ents), "rws": 4, "saveexc": False, "bytes": [],
+            entries[key(c)] = np.array(r, dtype=rdt)
+    ev = {"tid": tid, "kind": "file", "x": xjson(arity, common, ents), "rws": int(rdt.itemsize), "saveexc": False, "bytes": [],
           "loaded": BAD, "accepted": [], "rebuilt": True}
     if presave is not None:
         # two-phase use (concurrent_file_events): phase "save" only writes the file, phase "judge" picks it up
         if presave == "save":
             try:
                 with open(path, "wb") as f:
-                    IndxIO.save(f, entries, common, np.dtype(np.uint32))
+                    IndxIO.save(f, entries, common, rdt)
                 return None
             except Exception as e:  # noqa
                 return "%s: %s" % (type(e).__name__, e)
@@ -80,7 +81,7 @@ def file_event(IndxIO, tid, arity, common, ents, wd, index=None, cuts=True, uniq
     else:
         try:
             with open(path, "wb") as f:
-                IndxIO.save(f, entries, common, np.dtype(np.uint32))
+                IndxIO.save(f, entries, common, rdt)
         except Exception as e:  # noqa
             ev["saveexc"] = True
             ev["excmsg"] = "%s: %s" % (type(e).__name__, e)
